@@ -143,6 +143,15 @@ func c19Scenario(r *R) {
 	case "h2":
 		gun["type"] = "http2/scenario"
 	}
+	// gun diagnostics (one run in three): whatever the target answers - or does not answer - the trace dump, the timings
+	// and the answer log must cope with it
+	if w.Draw(3) == 0 {
+		gun["httptrace"] = map[string]interface{}{"trace": w.Bool(), "dump": w.Draw(3) != 0}
+		if fl := []string{"", "all", "warning", "error"}[w.Draw(4)]; fl != "" {
+			gun["answlog"] = map[string]interface{}{"enabled": true, "path": "/dev/null", "filter": fl}
+		}
+		r.Note("gun-diagnostics-on")
+	}
 	var tgt *httpTarget
 	var cutMu simrt.HMutex
 	cuts := map[string]int{}
